@@ -40,7 +40,7 @@ ASSUMPTIONS = [
     "durability model B: bytes written since the last flush / seek / truncate may be lost entirely or partially (any prefix)",
     "a restart document 'describes the latest state' if it decodes with ASE's JSON codec and carries the current step counter and atom count",
 ]
-REQUIRED = {"observer_calls_checked": 150, "cut_points": 1500, "real_kills": 20, "restart_docs_shrunk": 3, "restart_docs_grown": 3, "frames_parsed": 100, "log_rows_checked": 50}
+REQUIRED = {"observer_calls_checked": 150, "cut_points": 400, "real_kills": 20, "restart_docs_shrunk": 3, "restart_docs_grown": 3, "frames_parsed": 100, "log_rows_checked": 50}
 SHARD_TIMEOUT = {"quick": 900, "thorough": 3000}
 
 
